@@ -4,12 +4,14 @@ Parts
 -----
 remesh        assemblies x target meshes through makeAssemWithUniformMesh and back through setAssemblyStateFromOverlaps
 windows       Assembly.getBlocksBetweenElevations against an independent overlap computation
+snap_mesh     Assembly.setBlockMesh: mass-conserving change of the block mesh
 filter_mesh   UniformMeshGenerator._filterMesh validity predicates / refusal rule
 common_mesh   UniformMeshGenerator.generateCommonMesh on small blueprint reactors (public path of the filter)
 resample      mathematics.resampleStepwise against an exact step-function integrator
 average1d     mathematics.average1DWithinTolerance against the documented iterative procedure
 """
 import math
+import os
 
 from hypothesis import strategies as st
 
@@ -37,11 +39,15 @@ ASSUMPTIONS = [
 # Known candidate defects: the generator avoids these shapes by construction while the flag is True
 # (a case carrying "raw": true is executed as written; the defect replays use that).
 EXCLUDE_KNOWN = {
+    "remesh/array-only-mapper-with-unset": True,
     "resample/sum-interval-inside-one-bin": True,
     "resample/sum-modifies-array-input": True,
     "resample/sum-none-in-partial-bin": True,
     "resample/interval-starts-below-first-mesh-point": True,
 }
+
+if os.environ.get("VP_C11_NO_EXCLUDE") == "1":  # debugging aid: run the generators over the excluded shapes too
+    EXCLUDE_KNOWN = {k: False for k in EXCLUDE_KNOWN}
 
 PITCH = 17.0
 KINDS = ["fuel", "control", "reflector", "plenum", "mix"]
@@ -233,7 +239,7 @@ def _mesh_class(zs, mesh):
             merges = True
         lo = m
     refinement = all(z in mesh for z in zs[1:])
-    sliver = any(1e-13 * max(1.0, abs(z)) < abs(m - z) < 1e-6 for m in mesh for z in zs)
+    sliver = any(0.0 < abs(m - z) < 1e-6 for m in mesh for z in zs)
     return splits, merges, refinement, sliver
 
 
@@ -328,7 +334,9 @@ def _check_mapping(out, tag, names, src_z, src_vals, dst_z, pre_vals, got_vals, 
                 if kind == "avg":
                     vs = [_vec(sv[i])[g] for i in set_may]
                     if max(vs) == min(vs):
-                        out.check(abs(gv[g] - vs[0]) <= 4 * factor * abs(vs[0]) + 1e-300, "remesh/avg/constant-not-preserved",
+                        # (part of the cell covered only by overlaps below the documented cut-off counts as empty)
+                        uncovered = abs(1.0 - math.fsum(max(ov[i], 0.0) for i in set_may) / H)
+                        out.check(abs(gv[g] - vs[0]) <= tol + uncovered * abs(vs[0]), "remesh/avg/constant-not-preserved",
                                   lambda: "%s %s[%d] dest block %d: constant %r became %r" % (tag, name, g, k, vs[0], gv[g]))
             if kind == "int":
                 got_total = gv if got_total is None else [a + b for a, b in zip(got_total, gv)]
@@ -393,6 +401,17 @@ def remesh_execute(case):
     for p in case["params"]:
         pspecs.setdefault(PARAM_NAMES[p["name"] % len(PARAM_NAMES)], p)
     names = list(pspecs)
+    # known shape: every mapped parameter is an array of one length and some of them are unset on some block
+    S_ARR = "remesh/array-only-mapper-with-unset"
+    arrays_only = len(names) >= 2 and all(PARAMS[nm][1] == "array" for nm in names) and len({pspecs[nm]["G"] for nm in names}) == 1
+    if arrays_only:
+        mask = (1 << min(n, 8)) - 1
+        arrays_only = any(pspecs[nm]["unset"] & mask for nm in names) or (case["back"]["reassign"] and case["back"]["unset"] != 0)
+    if arrays_only and not case.get("raw") and EXCLUDE_KNOWN[S_ARR]:
+        out.label("excluded:" + S_ARR)
+        pspecs["kgHM"] = {"name": PARAM_NAMES.index("kgHM"), "vals": [1.0] * 8, "mult": [1.0] * 4, "G": 1, "unset": 0, "const": True, "empty": False}
+        names = list(pspecs)
+        arrays_only = False
     for name in names:
         kind, shape, none_default = PARAMS[name]
         p = pspecs[name]
@@ -424,7 +443,13 @@ def remesh_execute(case):
               "remesh/harness-equal-area", "source blocks do not share one area")
 
     # ---- forward: onto the target mesh
-    new = um.UniformMeshGeometryConverter.makeAssemWithUniformMesh(a, mesh, paramMapper=pm, mapNumberDensities=True)
+    try:
+        new = um.UniformMeshGeometryConverter.makeAssemWithUniformMesh(a, mesh, paramMapper=pm, mapNumberDensities=True)
+    except TypeError as exc:  # numpy's UFuncTypeError
+        if not (arrays_only and "Cannot cast ufunc" in str(exc)):
+            raise
+        out.fail(S_ARR, "forward, parameters %r on blocks %r: %s: %s" % (names, [[src_vals[nm][i] for nm in names] for i in range(n)], type(exc).__name__, exc))
+        return out
     ok = out.check(len(new) == len(mesh), "remesh/structure/block-count", lambda: "%d blocks for %d mesh cells" % (len(new), len(mesh)))
     if not ok:
         return out
@@ -454,7 +479,13 @@ def remesh_execute(case):
 
     # ---- refinement and back: exact inverse for every quantity
     if refinement and not sliver:
-        back = um.UniformMeshGeometryConverter.makeAssemWithUniformMesh(new, src_z[1:], paramMapper=pm, mapNumberDensities=True)
+        try:
+            back = um.UniformMeshGeometryConverter.makeAssemWithUniformMesh(new, src_z[1:], paramMapper=pm, mapNumberDensities=True)
+        except TypeError as exc:
+            if not (arrays_only and "Cannot cast ufunc" in str(exc)):
+                raise
+            out.fail(S_ARR, "refine and coarsen, parameters %r: %s: %s" % (names, type(exc).__name__, exc))
+            return out
         if out.check(len(back) == n, "remesh/structure/block-count", "round trip block count"):
             bN = _densities(back, nucs)
             for i in range(n):
@@ -490,7 +521,13 @@ def remesh_execute(case):
         out.label("back:mapped-values")
     uni_vals = _read_params(new, names)
     pre_back = _read_params(a, names)
-    um.UniformMeshGeometryConverter.setAssemblyStateFromOverlaps(new, a, pm, mapNumberDensities=False)
+    try:
+        um.UniformMeshGeometryConverter.setAssemblyStateFromOverlaps(new, a, pm, mapNumberDensities=False)
+    except TypeError as exc:
+        if not (arrays_only and "Cannot cast ufunc" in str(exc)):
+            raise
+        out.fail(S_ARR, "back, parameters %r on blocks %r: %s: %s" % (names, [[uni_vals[nm][k] for nm in names] for k in range(len(mesh))], type(exc).__name__, exc))
+        return out
     got_back = _read_params(a, names)
     new_z = [0.0] + [float(b.p.ztop) for b in new]
     _check_mapping(out, "back", names, new_z, uni_vals, src_z, pre_back, got_back, factor)
@@ -589,6 +626,92 @@ def windows_execute(case):
         out.check(abs(total - clipped) <= 2e-9 * max(1.0, H) * max(1, n), "windows/sum-not-window-length",
                   lambda: "heights %r window [%r,%r]: overlaps sum to %r, window clipped to the assembly is %r" % (hs, lo, hi, total, clipped))
     out.nontrivial_count = nontrivial
+    return out
+
+
+# ---------------------------------------------------------------------------------------------
+# part 2b: Assembly.setBlockMesh (snap the blocks to another mesh with the same number of cells)
+
+def snap_strategy(tier):
+    block = st.fixed_dictionaries(
+        {
+            "kind": st.sampled_from(KINDS),
+            "h": _height(),
+            "thot": st.sampled_from([400.0, 450.0, 600.0]),
+            "dens": st.lists(st.tuples(st.integers(0, len(NUCS) - 1), st.floats(0.0, 0.05, allow_nan=False)).map(list), max_size=2),
+        }
+    )
+    return st.fixed_dictionaries(
+        {
+            "blocks": st.lists(block, min_size=2, max_size=8),
+            "newh": st.lists(_height(), min_size=8, max_size=8),
+            "flag": st.sampled_from(["true", "false", "auto"]),
+            "atype": st.sampled_from(["fuel", "fuel", "control", "testAssemblyType"]),
+            "sameTotal": st.booleans(),
+        }
+    )
+
+
+def snap_execute(case):
+    from armi.materials.material import Fluid
+    from armi.reactor.flags import Flags
+
+    out = Out()
+    specs = case["blocks"]
+    n = len(specs)
+    a = _mkassembly(specs)
+    a.setType(case["atype"])
+    old_z = ref.cumulative([s["h"] for s in specs])
+    nh = list(case["newh"][:n])
+    if case["sameTotal"]:
+        f = old_z[-1] / math.fsum(nh)
+        nh = [h * f for h in nh]
+    new_z = ref.cumulative(nh)
+    flag = {"true": True, "false": False, "auto": "auto"}[case["flag"]]
+    out.label("flag:" + case["flag"], "assembly:" + case["atype"], "total:" + ("same" if case["sameTotal"] else "changed"))
+    a.makeAxialSnapList(refAssem=a)
+    out.check([b.p.topIndex for b in a] == list(range(n)), "snap/top-index", lambda: "topIndex %r" % [b.p.topIndex for b in a])
+
+    def comps(b):
+        return [(c, {nuc: float(v) for nuc, v in c.getNumberDensities().items()}, float(c.getVolume())) for c in b]
+
+    before = [comps(b) for b in a]
+    fuel_assembly = a.hasFlags(Flags.FUEL)
+    a.setBlockMesh(new_z[1:], conserveMassFlag=flag)
+    tolz = 1e-9 * max(1.0, new_z[-1])
+    out.check(all(abs(b.p.ztop - new_z[i + 1]) <= tolz and abs(b.p.zbottom - new_z[i]) <= tolz and abs(b.getHeight() - nh[i]) <= tolz for i, b in enumerate(a)),
+              "snap/mesh-not-applied", lambda: "requested %r got %r" % (new_z[1:], [b.p.ztop for b in a]))
+    below_fuel = True
+    moved = 0
+    for i, b in enumerate(a):
+        if b.isFuel():
+            below_fuel = False
+        ratio = nh[i] / specs[i]["h"]
+        if abs(ratio - 1.0) > 1e-3:
+            moved += 1
+        for c, n0, v0 in before[i]:
+            v1 = float(c.getVolume())
+            if flag is True:
+                conserve = True
+            elif flag is False:
+                conserve = False
+            elif b.hasFlags(Flags.FUEL):
+                conserve = c.hasFlags(Flags.FUEL)
+            elif fuel_assembly and below_fuel:
+                conserve = not isinstance(c.material, Fluid)
+            else:
+                conserve = False
+            out.check(abs(v1 - v0 * ratio) <= 1e-9 * abs(v0 * ratio), "snap/component-volume", lambda: "block %d %s: volume %r -> %r for height ratio %r" % (i, c.getName(), v0, v1, ratio))
+            n1 = c.getNumberDensities()
+            for nuc, d0 in n0.items():
+                d1 = float(n1.get(nuc, 0.0))
+                if conserve:
+                    out.check(abs(d1 * v1 - d0 * v0) <= 1e-10 * abs(d0 * v0) + 1e-300, "snap/atoms-not-conserved",
+                              lambda: "flag %r block %d (%s) component %s %s: atoms %r -> %r (height %r -> %r)" % (flag, i, specs[i]["kind"], c.getName(), nuc, d0 * v0, d1 * v1, specs[i]["h"], nh[i]))
+                else:
+                    out.check(d1 == d0, "snap/density-changed-without-conservation",
+                              lambda: "flag %r block %d (%s) component %s %s: density %r -> %r" % (flag, i, specs[i]["kind"], c.getName(), nuc, d0, d1))
+    out.nontrivial = moved >= 2 and flag is not False
     return out
 
 
@@ -906,14 +1029,16 @@ def resample_execute(case):
             xout = sorted(set(xout))
     expected = ref.step_resample(xin, ys, xout, avg)
 
-    def partial_bins(e):
-        return [i for i, o in e["pieces"] if o < (xin[i + 1] - xin[i])]
+    def partial_bins(j):
+        # overlapped bins that the output interval j does not cover completely (judged on the end points)
+        a_, b_ = xout[j], xout[j + 1]
+        return [i for i, _o in expected[j]["pieces"] if a_ > xin[i] or b_ < xin[i + 1]]
 
-    anypartialbin = any(partial_bins(e) for e in expected)
+    anypartialbin = any(partial_bins(j) for j in range(len(expected)))
     if (not avg) and arraydata and anypartialbin and not raw and EXCLUDE_KNOWN[S_MOD]:
         out.label("excluded:" + S_MOD)
         return out
-    none_partial = (not avg) and any(any(ys[i] is None for i in partial_bins(e)) for e in expected)
+    none_partial = (not avg) and any(any(ys[i] is None for i in partial_bins(j)) for j in range(len(expected)))
     if none_partial and not raw and EXCLUDE_KNOWN[S_NONE]:
         out.label("excluded:" + S_NONE)
         return out
@@ -962,7 +1087,7 @@ def resample_execute(case):
         if inside and not raw and EXCLUDE_KNOWN[S_INSIDE]:
             out.label("excluded:" + S_INSIDE)
             continue
-        if len(e["pieces"]) >= 2 and partial_bins(e):
+        if len(e["pieces"]) >= 2 and partial_bins(j):
             nontrivial = True
         if ref.starts_below_first(xin, a, b):
             sig = S_BELOW
@@ -1110,6 +1235,11 @@ PARTS = [
          rule="Hypothesis: assemblies of 1-8 blocks x up to 6 windows (ends at fractions of blocks, +-1e-12..1e-6 off boundaries, "
               "reaching outside, degenerate); overlaps positive, ordered, equal to the independent overlap, sum = window clipped to the "
               "assembly, no block above the 1e-10 relative cut-off missing; non-trivial = window over >= 2 blocks with a partial one"),
+    Part("snap_mesh", snap_execute, strategy=snap_strategy, budget={"quick": 500, "thorough": 20000}, procs={"quick": 2, "thorough": 16},
+         rule="Hypothesis: assemblies of 2-8 blocks snapped with Assembly.setBlockMesh onto generated meshes with the same number of cells "
+              "(same or changed total height), conserveMassFlag True/False/'auto' on fuel and non-fuel assemblies; per component: volume follows "
+              "the height, atoms (N*V) conserved where the documented rule says so, density untouched elsewhere; non-trivial = >= 2 blocks "
+              "change height with conservation on"),
     Part("filter_mesh", filter_execute, strategy=filter_strategy, budget={"quick": 3000, "thorough": 200000}, procs={"quick": 2, "thorough": 16},
          rule="Hypothesis: candidate points (quarter grid and free floats, duplicates), minimum size, anchors (mostly among the candidates), "
               "bottom/top/invalid preference, list/set/tuple input; result strictly increasing, subset, gaps >= minimum, anchors kept, "
